@@ -113,6 +113,7 @@ fn main() {
 				Some("dbsim") => dbsim::replay(rp),
 				Some("apisim") => apisim::replay(rp),
 				Some("netsim") => netsim::replay(rp),
+				Some("syncsim") => syncsim::replay(rp),
 				Some("wiresim") => {
 					if rp["property"].as_str() == Some("C11") {
 						wiresim::replay_c11(rp)
